@@ -213,6 +213,20 @@ Shapes2 ==
     \cup {Idx(l, 1) : l \in {b \in L : OkBase(b)}}
     \cup {Fld(l, "y") : l \in {b \in L : OkBase(b)}}
 
+\* depth 3, around the postfix forms: a unary operator applied to a postfix form whose BASE is composite (so that it is
+\* written in parentheses: `-(a + b)(c)`, `not (a).y`, `-(f(a))[1]`), the same as an operand of every binary operator, and
+\* postfix forms chained on a composite base (`(a + b)(c).y`).  "call, index and field access bind tighter still" than
+\* the unary operators, whatever the base looks like.
+PostOf(b, x) == {Call(b, <<x>>), Idx(b, 1), Fld(b, "y")}
+Shapes3 ==
+    LET L == {t \in Depth1(Name("a"), Name("b")) : OkBase(t)}
+        P == UNION {PostOf(l, Name("c")) : l \in L} IN
+    {Un(u, q) : u \in UnOps, q \in P}
+    \cup {Bin(BinOps[i], Un(u, q), Name("d")) : i \in 1..Len(BinOps), u \in UnOps, q \in P}
+    \cup {Bin(BinOps[i], Name("d"), Un(u, q)) : i \in {j \in 1..Len(BinOps) : Level(BinOps[j]) # 6}, u \in UnOps, q \in P}
+    \cup UNION {PostOf(q, Name("d")) : q \in P}
+    \cup {Un(u, r) : u \in UnOps, r \in UNION {PostOf(q, Name("d")) : q \in P}}
+
 \* chains: a op1 b op2 c op3 d written WITHOUT parentheses; the expectation is Parse(text)
 ChainToks(i, j, m) == <<"a", BinOps[i], "b", BinOps[j], "c", BinOps[m], "d">>
 
